@@ -61,6 +61,11 @@ func (r *round2) StoreBroadcastMessage(msg round.Message) error {
 		return fmt.Errorf("commitment: %w", err)
 	}
 
+	// the polynomial must have the degree fixed by the threshold (this also rejects an absent, empty polynomial)
+	if body.Phi_i.Degree() != r.Threshold() {
+		return fmt.Errorf("party %s sent a polynomial of the wrong degree", from)
+	}
+
 	// These steps come from Figure 1, Round 1 of the Frost paper
 
 	// 5. "Upon receiving ϕₗ, σₗ from participants 1 ⩽ l ⩽ n, participant
